@@ -441,7 +441,13 @@ def run_indicator_task(source, contracts, loops, spec, variant, natives=None, ti
                 else:
                     lim = (lambda j: z3.And(j >= 0, j < i))
                 for label, src, _ in b.inv_items(assume_only=True):
-                    st.qassumes.append(QAssume(lambda j, b=b, src=src, lim=lim: z3.Implies(lim(j), b.clause(pre_st, src, j)),
+                    lim_c = lim
+                    tup = b.spec.inv.get(label)
+                    if mode != "calculate" and b.role != "prior" and len(tup) > 2 and tup[2].get("assume_below_only"):
+                        # a weaker hypothesis (sound): the stale entry at i is never read by the step (frame-read-own), and its
+                        # nonlinear instance only distracts the solver
+                        lim_c = (lambda j: z3.And(j >= 0, j < i))
+                    st.qassumes.append(QAssume(lambda j, b=b, src=src, lim=lim_c: z3.Implies(lim(j), b.clause(pre_st, src, j)),
                                                f"Inv[{_short(b.N)}]:{label}"))
                 if b.role == "helper":
                     st.qassumes.append(QAssume(lambda j, b=b, lim=lim: z3.Implies(lim(j), b.contiguity(pre_st, j)), f"inputs[{_short(b.N)}]"))
